@@ -431,6 +431,40 @@ Section Atomic.
       pose proof (Ipr (fst b)) as P. unfold proj_inv in P. rewrite (Q (fst b)) in P.
       rewrite P in Hp. apply expand_inv_in in Hp. apply (ids_linp_incl _ _ _ Hp).
   Qed.
+
+  (* At EVERY reachable configuration (operations may be in flight, locks held) the shared
+     memory is exactly the state the sequential specification reaches on the operations
+     linearized so far, and that sequential history is legal. *)
+  Theorem atomic_state_is_sequential s0 progs c :
+    reach s0 progs c ->
+    exists lin : list entry,
+      (forall l, c_sh c l = run s0 lin l) /\ legal s0 lin /\ NoDup (ids lin) /\
+      (forall id r, In (ERes id r) (c_hist c) -> In id (ids lin)).
+  Proof.
+    intros R. destruct (reach_inv R) as [lin I]. exists lin.
+    destruct I as [Ist Ileg Iex Iloc Ipr Iid Ind Ires Irt]. auto.
+  Qed.
+
+  (* equal per-thread projections: the two histories contain the same events *)
+  Lemma proj_same_events h h' :
+    (forall t, proj t h = proj t h') -> forall ev, In ev h <-> In ev h'.
+  Proof.
+    intros H ev. split; intros Hin.
+    - assert (Hp : In ev (proj (ev_tid ev) h)) by (apply filter_In; split; auto; apply Nat.eqb_refl).
+      rewrite H in Hp. apply filter_In in Hp. tauto.
+    - assert (Hp : In ev (proj (ev_tid ev) h')) by (apply filter_In; split; auto; apply Nat.eqb_refl).
+      rewrite <- H in Hp. apply filter_In in Hp. tauto.
+  Qed.
+  Lemma in_expand_res lin id r :
+    In (ERes id r) (expand lin) <-> exists op, In ((id, op, r) : entry) lin.
+  Proof.
+    induction lin as [|e t IH]; simpl.
+    - split; [tauto | intros [? []]].
+    - rewrite IH. split.
+      + intros [E|[E|[op H]]]; [discriminate | inversion E; subst | eauto].
+        exists (e_op e). left. destruct e as [[? ?] ?]; reflexivity.
+      + intros [op [E|H]]; [subst; simpl; auto | eauto].
+  Qed.
 End Atomic.
 
 Arguments EInv {Op Ret} id op.
